@@ -100,12 +100,13 @@ func runPipe(c pipeCfg) pipeObs {
 	me := wire.NewNetAddressIPPort(net.ParseIP("10.1.2.3"), 18555, 0)
 	you := wire.NewNetAddressIPPort(net.ParseIP("10.9.9.9"), 8333, 0)
 	nonceCtr += 0x9E3779B97F4A7C15
+	nonce := nonceCtr
 	handshake := func() {
 		if c.mode == 6 {
 			re.Write(encMsg(wire.NewMsgGetAddr(), btcnet))
 			return
 		}
-		re.Write(encMsg(wire.NewMsgVersion(me, you, nonceCtr, 0), btcnet))
+		re.Write(encMsg(wire.NewMsgVersion(me, you, nonce, 0), btcnet))
 		re.Write(encMsg(wire.NewMsgVerAck(), btcnet))
 	}
 	if c.mode < 5 {
